@@ -32,6 +32,32 @@ def run_programs(ctx, progs, osets, found_by):
         ctx.sample({'stage': found_by, 'id': progs[-1][0], 'source': progs[-1][1][:300]})
 
 
+TRANSFORMS_ON = dict(combine_imports=True, remove_pass=True, remove_object_base=True, remove_explicit_return_none=True,
+                     remove_builtin_exception_brackets=True, constant_folding=True)      # not convert_posargs_to_args: it runs after the renaming and erases the `/` the oracle reads
+
+
+def run_with_transforms(ctx, progs, found_by):
+    """renaming together with the transforms that rebuild statements (the nodes they create must land in the namespace of the ones
+    they replace): the interface oracle compares minify(transforms only) with minify(transforms + renaming), which have one shape"""
+    for ident, src in progs:
+        if ctx.time_left() < 10:
+            break
+        base, _exc = rc.minify_with(src, TRANSFORMS_ON)
+        if base is None:
+            continue
+        for oname, extra in (('locals', dict(rename_locals=True)), ('all', dict(rename_locals=True, rename_globals=True, hoist_literals=True))):
+            out, _exc = rc.minify_with(src, dict(TRANSFORMS_ON, **extra))
+            ctx.count()
+            if out is None:
+                continue
+            if out != base:
+                ctx.mark_nontrivial(ident + 'transforms+' + oname)
+            probs = alpha.interface_problems(base, out, bool(extra.get('rename_globals')))
+            if probs:
+                ctx.add_violation({'input': {'source': src, 'options': dict(TRANSFORMS_ON, **extra), 'base_options': TRANSFORMS_ON}, 'what': '; '.join(probs[:3]),
+                                   'observed': out[:400], 'found_by': found_by, 'oracle': 'interface-with-transforms', 'shapes': rc.shapes_of(src)})
+
+
 # ---- arg_rename_in_place against its Lean model (PMV.InPlace.argRenameInPlace, theorems T04.5-T04.7) ----
 
 DECORATORS = [[], [], [], ['classmethod'], ['classmethod'], ['staticmethod'], ['property'], ['classmethod', 'some_decorator'], ['some_decorator', 'classmethod'],
@@ -153,6 +179,8 @@ def run(ctx):
     run_programs(ctx, progs, osets, 'generated')
     import scopegen
     run_programs(ctx, scopegen.export_programs(), rc.RENAME_OPTION_SETS, 'interface-declarations')
+    cip = scopegen.class_import_programs()
+    run_with_transforms(ctx, cip + ctx.rng.sample(progs, min(len(progs), ctx.scale(150, 2000))), 'with-transforms')
     rc.assigner_correspondence(ctx, progs[:ctx.scale(300, 3000)], [(True, False, False), (True, True, True)])
     for k in ctx.known:
         if k.get('replay_source'):
@@ -169,6 +197,10 @@ def search(ctx):
 
 def replay(ctx, data):
     inp = data.get('input') or {}
+    if 'source' in inp and inp.get('base_options'):
+        base, _e = rc.minify_with(inp['source'], inp['base_options'])
+        out, _e = rc.minify_with(inp['source'], inp.get('options') or {})
+        return bool(base is not None and out is not None and alpha.interface_problems(base, out, bool((inp.get('options') or {}).get('rename_globals'))))
     if 'source' in inp:
         out, exc = rc.minify_with(inp['source'], inp.get('options') or {})
         return bool(out is not None and alpha.interface_problems(inp['source'], out, bool((inp.get('options') or {}).get('rename_globals'))))
